@@ -20,8 +20,9 @@ Take(q, n) == SubSeq(q, 1, n)
 Drop(q, n) == SubSeq(q, n + 1, Len(q))
 
 QResize(q, n) == IF n <= Len(q) THEN Take(q, n) ELSE q \o Rep(AnyB, n - Len(q))
-QRemoveFront(q, n) == IF n >= Len(q) THEN <<>> ELSE Drop(q, n)
-QRemoveBack(q, n) == IF n >= Len(q) THEN <<>> ELSE Take(q, Len(q) - n)
+\* (n < 0 in a trace stands for a count close to the maximum of the size type: SIZE_MAX + 1 + n)
+QRemoveFront(q, n) == IF n < 0 \/ n >= Len(q) THEN <<>> ELSE Drop(q, n)
+QRemoveBack(q, n) == IF n < 0 \/ n >= Len(q) THEN <<>> ELSE Take(q, Len(q) - n)
 
 Set2(f, i, v) == [f EXCEPT ![i] = v]
 
